@@ -62,29 +62,32 @@ Proof.
   apply pfind_None. intros H. apply a_evict_keys in H. apply (a_delete_nokey k a); exact H.
 Qed.
 
-Lemma a_step_sound now o a M cur : awf a -> sub a (M, cur) -> op_no_drop_before o ->
+Lemma a_step_sound now o a M cur : awf a -> sub a (M, cur) ->
   fst (fst (a_step now o a)) = fst (m_step now o (M, cur)) /\
   sub (snd (fst (a_step now o a))) (snd (m_step now o (M, cur))) /\
   out_sound (snd (a_step now o a)) (m_out now o (M, cur)).
 Proof.
-  intros Hwf [Hs Hg] Hop. cbn [fst snd] in Hs, Hg.
+  intros Hwf [Hs Hg]. cbn [fst snd] in Hs, Hg.
   destruct o as [k v tin d g f nem|k|t|k| |n]; cbn [a_step m_step m_out fst snd].
   - (* store *)
     split; [reflexivity|]. split; [|right; reflexivity].
-    unfold a_store. destruct f as [| | |b]; cbn [op_no_drop_before] in Hop; [| tauto | |].
+    unfold a_store. destruct f as [| | |b].
     + (* FNone *)
-      split; cbn [fst snd a_ent a_gen m_gen]; [|rewrite Hg; reflexivity].
+      split; cbn [fst snd a_ent a_gen m_gen m_store]; [|rewrite Hg; reflexivity].
       intros k' c'. rewrite pfind_app. unfold m_upd.
       destruct (pfind k' (a_ent (a_evict _ now nem (a_delete k a)))) as [c2|] eqn:E2.
       * intros [= ->]. pose proof E2 as E3. apply a_evict_sub in E3. unfold a_delete in E3; cbn [a_ent] in E3.
         rewrite pfind_premove in E3. destruct (key_eqb k' k); [discriminate|]. apply Hs; exact E3.
       * cbn [pfind]. rewrite (key_eqb_sym k k'). destruct (key_eqb k' k); [|discriminate].
         intros [= <-]. rewrite Hg. reflexivity.
+    + (* FDropBefore: remove(key) *)
+      split; cbn [fst snd a_delete a_ent a_gen m_gen m_store]; [|exact Hg].
+      intros k' c'. rewrite pfind_premove. unfold m_upd. destruct (key_eqb k' k); [discriminate|apply Hs].
     + (* FDropAfterDelete *)
-      split; cbn [fst snd a_delete a_ent a_gen m_gen]; [|exact Hg].
+      split; cbn [fst snd a_delete a_ent a_gen m_gen m_store]; [|exact Hg].
       intros k' c'. rewrite pfind_premove. unfold m_upd. destruct (key_eqb k' k); [discriminate|apply Hs].
     + (* FClear *)
-      split; cbn [fst snd a_ent a_gen m_gen]; [intros k' c'; discriminate|].
+      split; cbn [fst snd a_ent a_gen m_gen m_store]; [intros k' c'; discriminate|].
       destruct b; rewrite Hg; reflexivity.
   - (* fetch *)
     destruct (a_fetch_sound now k a (M, cur)) as (H1 & H2 & H3 & H4); [split; assumption|].
@@ -118,7 +121,7 @@ Proof.
   - cbn [op_no_fault] in Hop. destruct Hop as [-> ->].
     split; [reflexivity|]. split; [exact Hlim|]. split; [|reflexivity].
     unfold a_store. rewrite a_evict_nolimit by exact Hlim.
-    split; cbn [fst snd a_ent a_gen a_delete m_gen]; [|rewrite Hg; reflexivity].
+    split; cbn [fst snd a_ent a_gen a_delete m_gen m_store]; [|rewrite Hg; reflexivity].
     intros k'. rewrite pfind_app, pfind_premove. unfold m_upd. cbn [pfind]. rewrite (key_eqb_sym k k').
     destruct (key_eqb k' k); [rewrite Hg; reflexivity|].
     rewrite <- Hs. destruct (pfind k' (a_ent a)); reflexivity.
@@ -144,16 +147,15 @@ Qed.
 Lemma inv_awf s : Inv s -> awf (abs s).
 Proof. intros I. exact (inv_keys s I). Qed.
 
-Lemma run_sound_gen ops : forall now s Mg, Inv s -> sub (abs s) Mg -> Forall op_no_drop_before ops ->
+Lemma run_sound_gen ops : forall now s Mg, Inv s -> sub (abs s) Mg ->
   Forall2 ans_sound (snd (run now ops s)) (m_trace now ops Mg).
 Proof.
-  induction ops as [|o ops IH]; intros now s [M cur] I Hs Hops; [constructor|].
-  inversion Hops as [|? ? Ho Hops']; subst.
+  induction ops as [|o ops IH]; intros now s [M cur] I Hs; [constructor|].
   cbn [run m_trace]. destruct (step_ref now o s I) as [I1 E1].
-  destruct (a_step_sound now o (abs s) M cur (inv_awf s I) Hs Ho) as (A1 & A2 & A3).
+  destruct (a_step_sound now o (abs s) M cur (inv_awf s I) Hs) as (A1 & A2 & A3).
   rewrite <- E1 in A1, A2, A3.
   destruct (step now o s) as [[now1 s1] x]; cbn [fst snd] in *.
-  specialize (IH now1 s1 (snd (m_step now o (M, cur))) I1 A2 Hops').
+  specialize (IH now1 s1 (snd (m_step now o (M, cur))) I1 A2).
   destruct (run now1 ops s1) as [[now2 s2] l]; cbn [fst snd] in *.
   constructor; [|rewrite <- A1; exact IH].
   split; cbn [fst snd]; [exact A3|].
@@ -181,9 +183,9 @@ Qed.
 Lemma init_exact lim : exact (abs (init lim)) m_init.
 Proof. split; reflexivity. Qed.
 
-Theorem run_sound ops now lim : Forall op_no_drop_before ops ->
+Theorem run_sound ops now lim :
   Forall2 ans_sound (snd (run now ops (init lim))) (m_trace now ops m_init).
-Proof. intros H. apply run_sound_gen; [apply init_inv|apply exact_sub, init_exact|exact H]. Qed.
+Proof. apply run_sound_gen; [apply init_inv|apply exact_sub, init_exact]. Qed.
 
 Theorem run_exact ops now : Forall op_no_fault ops ->
   Forall2 ans_exact (snd (run now ops (init 0))) (m_trace now ops m_init).
@@ -237,29 +239,45 @@ Qed.
 
 Definition mk_of (Mg : mspec * N) (k : key) : option container := fst Mg k.
 
-Lemma m_step_store_binds now k v tin d g f nem M cur :
+(* a store that goes through binds the key to the new entry; one that cannot be carried out unbinds it *)
+Lemma m_step_store_binds now k v tin d g nem M cur :
+  mk_of (snd (m_step now (Store k v tin d g FNone nem) (M, cur))) k
+  = Some (mkC v (store_trigs k tin) d (match g with Some x => x | None => cur end)).
+Proof. cbn [m_step snd mk_of fst m_store]. unfold m_upd. rewrite key_eqb_refl. reflexivity. Qed.
+Lemma m_step_store_failed now k v tin d g f nem M cur : f <> FNone ->
+  mk_of (snd (m_step now (Store k v tin d g f nem) (M, cur))) k = None.
+Proof.
+  intros Hf. destruct f as [| | |b]; [congruence| | |]; cbn [m_step snd mk_of fst m_store]; unfold m_upd, m_empty;
+    rewrite ?key_eqb_refl; reflexivity.
+Qed.
+Lemma m_step_store_either now k v tin d g f nem M cur :
+  mk_of (snd (m_step now (Store k v tin d g f nem) (M, cur))) k = None \/
   mk_of (snd (m_step now (Store k v tin d g f nem) (M, cur))) k
   = Some (mkC v (store_trigs k tin) d (match g with Some x => x | None => cur end)).
-Proof. cbn [m_step snd mk_of fst]. unfold m_upd. rewrite key_eqb_refl. reflexivity. Qed.
+Proof.
+  destruct f as [| | |b]; [right; apply m_step_store_binds| | |]; left; apply m_step_store_failed; discriminate.
+Qed.
 
 (* an entry survives every operation that does not invalidate it *)
-Lemma m_step_keeps now o Mg k c : mk_of Mg k = Some c -> invalidates k (c_trigs c) o = false ->
+Lemma m_step_keeps now o Mg k c : op_no_fault o -> mk_of Mg k = Some c -> invalidates k (c_trigs c) o = false ->
   mk_of (snd (m_step now o Mg)) k = Some c.
 Proof.
-  destruct Mg as [M cur]. unfold mk_of; cbn [fst]. intros H Hi.
+  destruct Mg as [M cur]. unfold mk_of; cbn [fst]. intros Hop H Hi.
   destruct o as [k' v tin d g f nem|k'|t|k'| |n]; cbn [m_step snd fst invalidates] in *; try exact H.
-  - unfold m_upd. rewrite (key_eqb_sym k k'), Hi. exact H.
+  - cbn [op_no_fault] in Hop. destruct Hop as [-> _]. cbn [m_store]. unfold m_upd. rewrite (key_eqb_sym k k'), Hi. exact H.
   - unfold m_rise. rewrite H, Hi. reflexivity.
   - unfold m_upd. rewrite (key_eqb_sym k k'), Hi. exact H.
   - discriminate.
 Qed.
-Lemma m_run_keeps ops : forall now Mg k c, mk_of Mg k = Some c ->
+Lemma m_run_keeps ops : forall now Mg k c, Forall op_no_fault ops -> mk_of Mg k = Some c ->
   forallb (fun o => negb (invalidates k (c_trigs c) o)) ops = true ->
   mk_of (snd (m_run now ops Mg)) k = Some c.
 Proof.
-  induction ops as [|o r IH]; intros now Mg k c H Hall; [exact H|].
+  induction ops as [|o r IH]; intros now Mg k c Hnf H Hall; [exact H|].
+  inversion Hnf as [|? ? Ho Hnf']; subst.
   cbn [forallb] in Hall. apply andb_true_iff in Hall. destruct Hall as [H1 H2].
-  rewrite m_run_cons. apply IH; [|exact H2]. apply m_step_keeps; [exact H|]. destruct (invalidates _ _ o); [discriminate|reflexivity].
+  rewrite m_run_cons. apply IH; [exact Hnf'| |exact H2]. apply m_step_keeps; [exact Ho|exact H|].
+  destruct (invalidates _ _ o); [discriminate|reflexivity].
 Qed.
 
 (* without a store under k the binding of k can only disappear *)
@@ -269,7 +287,8 @@ Lemma m_step_fades now o Mg k c0 : stores_key k o = false ->
 Proof.
   destruct Mg as [M cur]. unfold mk_of; cbn [fst]. intros Hst H.
   destruct o as [k' v tin d g f nem|k'|t|k'| |n]; cbn [m_step snd fst stores_key] in *; try exact H.
-  - unfold m_upd. rewrite (key_eqb_sym k k'), Hst. exact H.
+  - destruct f as [| | |b]; cbn [m_store]; unfold m_upd, m_empty; rewrite ?(key_eqb_sym k k'), ?Hst;
+      first [exact H|left; reflexivity].
   - unfold m_rise. destruct H as [-> | ->]; [left; reflexivity|]. destruct (kmem t (c_trigs c0)); [left|right]; reflexivity.
   - unfold m_upd. destruct (key_eqb k k'); [left; reflexivity|exact H].
   - left; reflexivity.
@@ -332,13 +351,11 @@ Proof.
 Qed.
 
 (* the last answer of history ++ [Fetch k] against the specification state after history *)
-Lemma last_fetch_sound lim now hist k : Forall op_no_drop_before hist ->
+Lemma last_fetch_sound lim now hist k :
   last_out (snd (run now (hist ++ [Fetch k]) (init lim))) = OMiss \/
   last_out (snd (run now (hist ++ [Fetch k]) (init lim))) = m_fetch (clock now hist) k (fst (snd (m_run now hist m_init))).
 Proof.
-  intros H. assert (H' : Forall op_no_drop_before (hist ++ [Fetch k])).
-  { apply Forall_app. split; [exact H|constructor; [exact I|constructor]]. }
-  pose proof (run_sound _ now lim H') as HS. rewrite trace_last_fetch in HS.
+  pose proof (run_sound (hist ++ [Fetch k]) now lim) as HS. rewrite trace_last_fetch in HS.
   apply Forall2_snoc_r in HS. destruct HS as (l0 & a & -> & [Ha _]). rewrite last_out_snoc. exact Ha.
 Qed.
 Lemma last_fetch_exact now hist k : Forall op_no_fault hist ->
@@ -357,14 +374,16 @@ Lemma spec_after_store now pre k v tin d g f nem mid :
     let c0 := mkC v (store_trigs k tin) d g' in
     (mk_of (snd (m_run now (pre ++ Store k v tin d g f nem :: mid) m_init)) k = None \/
      mk_of (snd (m_run now (pre ++ Store k v tin d g f nem :: mid) m_init)) k = Some c0) /\
-    (forallb (fun o => negb (invalidates k (store_trigs k tin) o)) mid = true ->
+    (f <> FNone -> mk_of (snd (m_run now (pre ++ Store k v tin d g f nem :: mid) m_init)) k = None) /\
+    (f = FNone -> Forall op_no_fault mid ->
+     forallb (fun o => negb (invalidates k (store_trigs k tin) o)) mid = true ->
      mk_of (snd (m_run now (pre ++ Store k v tin d g f nem :: mid) m_init)) k = Some c0).
 Proof.
   intros Hmid. rewrite m_run_app, m_run_cons.
   destruct (snd (m_run now pre m_init)) as [M cur] eqn:E.
   exists (match g with Some x => x | None => cur end). split; [intros x ->; reflexivity|].
-  cbn zeta. pose proof (m_step_store_binds (fst (m_run now pre m_init)) k v tin d g f nem M cur) as Hb.
-  split.
-  - apply m_run_fades; [exact Hmid|right; exact Hb].
-  - intros Hinv. apply m_run_keeps; [exact Hb|exact Hinv].
+  cbn zeta. split; [|split].
+  - apply m_run_fades; [exact Hmid|]. apply m_step_store_either.
+  - intros Hf. apply m_run_stays_none; [exact Hmid|]. apply m_step_store_failed; exact Hf.
+  - intros -> Hnf Hinv. apply m_run_keeps; [exact Hnf|apply m_step_store_binds|exact Hinv].
 Qed.
